@@ -496,3 +496,59 @@ pub fn relay_scenario(name: &str, depth: usize, extra: &[Op]) -> Scenario {
         order: None,
     }
 }
+
+/// The cross product "every prologue x every probe": each prologue scenario of this file with a universal
+/// alphabet (edits, commits with and without metadata, discard, snapshot, low-level edits, reopen, reload,
+/// refresh, time travel, resolutions, stage round trip, sync / meld / block-only copies between all
+/// replicas), explored to a small depth. Every engine-H property adds these to its own scenarios, so a
+/// state shape introduced for one property is seen by the oracles of all the others.
+pub fn cross_scenarios(thorough: bool) -> Vec<Scenario> {
+    let depth = if thorough { 2 } else { 1 };
+    let base: Vec<Scenario> = vec![
+        pair_conflict_scenario("x-pair-conflict", 2, 3, &[1, 8], depth, &[]),
+        pair_conflict_scenario("x-pair-edit-hi-vs-delete", 15, 3, &[9], depth, &[]),
+        pair_conflict_scenario("x-pair-conflict-move", 6, 5, &[1, 3], depth, &[]),
+        long_chain_scenario("x-pair-long-chain", depth, &[]),
+        diamond_scenario("x-pair-diamond", &[1, 9], depth, &[]),
+        two_patch_scenario("x-pair-two-patches", depth, &[]),
+        tie_scenario("x-pair-tie", depth, &[]),
+        trio_merge_scenario("x-trio-merge", depth, &[]),
+        many_commits_scenario("x-pair-many-commits", depth, &[]),
+        three_leaves_scenario("x-trio-three-leaves", depth, &[]),
+        same_edit_scenario("x-pair-same-edit", depth, &[]),
+        mutual_move_scenario("x-pair-mutual-move", depth, &[]),
+        travel_reuse_scenario("x-pair-travel-reuse", depth, &[]),
+        relay_scenario("x-trio-relay", depth, &[]),
+    ];
+    base.into_iter()
+        .map(|mut sc| {
+            let nd = sc.menu.docs.len();
+            let mut a: Vec<Op> = vec![];
+            for r in 0..sc.nrep {
+                // a few documents of the scenario's own menu: first, second, last
+                let mut ds = vec![0, 1.min(nd - 1), nd - 1];
+                ds.dedup();
+                for d in ds {
+                    a.push(Op::Upd(r, d));
+                }
+                a.extend_from_slice(&[
+                    Op::Commit(r, 0), Op::Commit(r, 3), Op::Unstage(r), Op::Snapshot(r), Op::ObjPut(r, 1), Op::ObjRemove(r, 0),
+                    Op::Reopen(r), Op::Reload(r), Op::Refresh(r), Op::Travel(r, 0), Op::Travel(r, 1), Op::Travel(r, 2),
+                    Op::Resolve(r, 0, 0), Op::Resolve(r, 0, 1), Op::Resolve(r, 1, 0), Op::StageRt(r),
+                ]);
+                for s in 0..sc.nrep {
+                    if s != r {
+                        a.push(Op::Sync(r, s));
+                        a.push(Op::Meld(r, s));
+                        a.push(Op::CopyDeltas(r, s));
+                    }
+                }
+            }
+            sc.alphabet = a;
+            sc.max_depth = depth;
+            sc.key_opts.heads = true;
+            sc.track = true;
+            sc
+        })
+        .collect()
+}
